@@ -22,7 +22,7 @@ if go test $race -run 'TestDemo' -count=1 . >/tmp/ev-$name.demo.log 2>&1; then e
 rm -f $wt/zz_demo_test.go
 cd /verif
 for p in "$@"; do
-  out=$(VERIF_REPO=$wt ./check $p ${TIER:-quick} 2>&1); code=$?
+  out=$(VERIF_REPO=$wt timeout 900 ./check $p ${TIER:-quick} 2>&1); code=$?
   echo "check $p exit=$code: $(echo "$out" | grep -m1 'violation class' ) $(echo "$out" | grep -A2 -m1 'violation class' | sed -n 2p | cut -c1-200)"
 done
 rm -f /tmp/ev-$name.*.log
